@@ -101,7 +101,9 @@ PROPS = {
                     "instantiation of its dynamically typed operands fits the operator (static_ok, proved equal to the existential lift of "
                     "the evaluator's operator table rt_ok, the same table unit eval_ops proves the evaluator implements); the type given to an "
                     "expression exists whenever the operands are acceptable, covers every type the evaluator can produce, and is exact when no "
-                    "operand is dynamic -- so a well-typed sub-expression never makes its parent rejected."),
+                    "operand is dynamic -- so a well-typed sub-expression never makes its parent rejected.  METHOD ARGUMENTS: with the right argument "
+                    "count, a method call on a statically typed receiver is rejected for its argument types exactly when an argument has a concrete "
+                    "static type different from the documented one (member_arg_rule, expect_member_string_arg, expect_member_number_arg)."),
         "not_covered": ("undeclared-name, call-arity, duplicate-function/parameter and reserved-name rules, method/argument typing on statically "
                         "typed receivers (`\"abc\".find(5)` is accepted statically and reported at run time), index and condition operand rules, "
                         "type tracking across re-declarations, and the recursion of check_expr over sub-expressions (cut at the arm boundary)."),
